@@ -57,7 +57,7 @@ func (s *service) Create(ctx context.Context, record kvs.Record) (string, error)
 	if ctx.Err() != nil {
 		return "", ctx.Err()
 	}
-	if r, ok := s.recs[record.Key]; ok {
+	if r, ok := s.live(record.Key); ok {
 		return r.Version, errors.ErrExist
 	}
 	record.Version = ulidutils.NewID()
@@ -151,7 +151,7 @@ func (s *service) Delete(ctx context.Context, key string) error {
 	s.lock.Lock()
 	defer s.lock.Unlock()
 
-	if _, ok := s.recs[key]; !ok {
+	if _, ok := s.live(key); !ok {
 		return errors.ErrNotExist
 	}
 	delete(s.recs, key)
@@ -162,7 +162,7 @@ func (s *service) Delete(ctx context.Context, key string) error {
 func (s *service) WaitForVersionChange(ctx context.Context, key, ver string) error {
 	for {
 		s.lock.Lock()
-		r, ok := s.recs[key]
+		r, ok := s.live(key)
 		if !ok {
 			s.lock.Unlock()
 			return errors.ErrNotExist
@@ -179,8 +179,19 @@ func (s *service) WaitForVersionChange(ctx context.Context, key, ver string) err
 		ws.waiters++
 		s.lock.Unlock()
 
+		// the record expiration is a change too, so wake up when it happens
+		var expired <-chan time.Time
+		var tmr *time.Timer
+		if r.ExpiresAt != nil {
+			tmr = time.NewTimer(time.Until(*r.ExpiresAt) + time.Millisecond)
+			expired = tmr.C
+		}
+
 		select {
 		case <-ctx.Done():
+			if tmr != nil {
+				tmr.Stop()
+			}
 			s.lock.Lock()
 			defer s.lock.Unlock()
 			ws1, ok := s.verChange[key]
@@ -195,6 +206,11 @@ func (s *service) WaitForVersionChange(ctx context.Context, key, ver string) err
 			return ctx.Err()
 		case <-ws.done:
 			// need to check the version, go around
+			if tmr != nil {
+				tmr.Stop()
+			}
+		case <-expired:
+			// the record is expired, live() will remove it and notify other waiters
 		}
 	}
 }
@@ -209,11 +225,26 @@ func (s *service) ListKeys(ctx context.Context, pattern string) (iterable.Iterat
 	}
 	res := []string{}
 	for k := range s.recs {
-		if g.Match(k) {
+		if _, ok := s.live(k); ok && g.Match(k) {
 			res = append(res, k)
 		}
 	}
 	return &keysIterator{res: res}, nil
+}
+
+// live returns the record by the key if it exists and it is not expired. An expired record
+// is removed as it would be deleted at its expiration time. Must be called under the lock.
+func (s *service) live(key string) (kvs.Record, bool) {
+	r, ok := s.recs[key]
+	if !ok {
+		return kvs.Record{}, false
+	}
+	if r.ExpiresAt != nil && r.ExpiresAt.Before(time.Now()) {
+		delete(s.recs, key)
+		s.notifyWaiters(key)
+		return kvs.Record{}, false
+	}
+	return r, true
 }
 
 func (s *service) notifyWaiters(key string) {
